@@ -500,6 +500,7 @@ func (fr *frame) execSelect(st *State, x *ast.SelectStmt) []Outcome {
 		s := st.clone()
 		choice := mkVar(freshName(fmt.Sprintf("select%d", i)), SBool)
 		s.assume(choice)
+		fr.fc.ghostHookStmt(s, fr, fmt.Sprintf("select-case[%d]", i+1))
 		if cl.Comm != nil {
 			switch c := cl.Comm.(type) {
 			case *ast.AssignStmt:
@@ -731,10 +732,10 @@ func (fc *fctx) ghostHook(st *State, fr *frame, call *ast.CallExpr, name string,
 }
 
 func (fc *fctx) ghostHookStmt(st *State, fr *frame, what string) {
-	if fr != fc.root || fc.contract == nil {
+	if fr.contract == nil {
 		return
 	}
-	for _, cl := range fc.contract.Clauses {
+	for _, cl := range fr.contract.Clauses {
 		if cl.Kind == "ghost" && cl.Where == what {
 			fc.ghostAssign(st, fr, cl, nil)
 		}
